@@ -6,6 +6,7 @@ import Sourcer.Wire
     (core (bytes 0|1) (ign k|-1) (fuel n) (rx R…) (rules E…) (entry E) (cases (p c c c …) …))
         → for every case "<gen> <peg>" separated by " ; "
     (flagsof E)                           → as/cps bits the table assigns to E
+    (prepare (rule name ign E) …)         → the prepared program (model of the translator's front half)
 -/
 open Sourcer Sexp
 
@@ -41,6 +42,30 @@ def handleCore (st : St) (xs : List Sexp) : Option String := do
     | _ => none
   pure (" ; ".intercalate outs)
 
+/-- the specification pipeline for a whole (unprepared) grammar: Lean `prepare`, then `peg` -/
+def handlePrepCore (st : St) (xs : List Sexp) : Option String := do
+  let bytes ← (← (← field "bytes" xs).head?).bool?
+  let fuel ← (← (← field "fuel" xs).head?).nat?
+  let rxs ← (← field "rx" xs).mapM decodeRx
+  let rules ← (← field "decls" xs).mapM decodeRuleDef
+  let cases ← field "cases" xs
+  let rxArr := rxs.toArray
+  let Q := prepare rules
+  let P : Program :=
+    { rules := Q.bodies
+      ignored := Q.ignored
+      matcher := fun i inp p => match rxArr[i]? with
+        | some r => r.matchAt inp p
+        | none => none
+      bytesMode := bytes }
+  let outs ← cases.mapM fun c => match c with
+    | .list (p :: cs) => do
+      let p ← p.nat?
+      let inp ← nats? cs
+      pure s!"{printReg (gen st.F P inp fuel (.ref Q.start) p)} {printRes (peg P inp fuel (.ref Q.start) p)}"
+    | _ => none
+  pure (" ; ".intercalate outs)
+
 def handle (st : St) (line : String) : St × String :=
   match Sexp.parse line with
   | some (.list (.atom "flags" :: bs)) =>
@@ -53,6 +78,19 @@ def handle (st : St) (line : String) : St × String :=
     match handleCore st xs with
     | some out => (st, out)
     | none => (st, "error bad-core-request")
+  | some (.list (.atom "prepcore" :: xs)) =>
+    match handlePrepCore st xs with
+    | some out => (st, out)
+    | none => (st, "error bad-prepcore-request")
+  | some (.list (.atom "prepare" :: rs)) =>
+    match rs.mapM decodeRuleDef with
+    | some rules =>
+      let Q := prepare rules
+      let ign := match Q.ignored with
+        | some k => toString k
+        | none => "-1"
+      (st, s!"(ign {ign}) (start {Q.start}) (rules{encodeList Q.bodies})")
+    | none => (st, "error bad-prepare-request")
   | some (.list [.atom "flagsof", e]) =>
     match decodeExpr e with
     | some e => (st, printFlags (flagsOf st.F e))
